@@ -93,6 +93,7 @@ def emitCmd (ops : String) : String :=
     | .error .unmappedRule => s!"ERR:UnmappedRule|steps={steps}"
     | .error .multipleProducers => s!"ERR:MultipleProducers|steps={steps}"
     | .error .newline => s!"ERR:Newline|steps={steps}"
+    | .error .pipe => s!"ERR:Pipe|steps={steps}"
     | .ok o => "|".intercalate ([s!"OK|steps={steps}", "R:" ++ encL o.rules] ++ o.builds.map dumpOut)
 
 def handle (cmd : String) (fs : List String) : String :=
@@ -118,7 +119,10 @@ def handle (cmd : String) (fs : List String) : String :=
     let es := if edges.trimAscii.isEmpty then [] else (edges.splitOn "/").map decodeEdge
     verdict { rules := decodeStrList rules, edges := es } (strs f) (pairs (strs r))
   | "canon", [p] => encodeStr (canonPath (decodeStr p))
-  | "quote", [p] => encodeStr (Emit.ninjaQuoteBuild (decodeStr p))
+  | "quote", [p] =>
+    match Emit.ninjaQuoteBuild (decodeStr p) with
+    | some q => "OK|" ++ encodeStr q
+    | none => "RAISES"
   | "readpath", [t] =>
     -- first path of the text as the lexer reads it (literal pieces only), and what is left
     let s := decodeStr t
